@@ -24,7 +24,10 @@ func (e *Engine) lenOf(st *State, v Value) *Term {
 		arr := getPath(e.get(st, x.Obj), x.Path).(*ArrayV)
 		return e.tb.Int64(int64(len(arr.E)))
 	case *ChanV:
-		return e.tb.Int64(0)
+		if x.Obj == 0 {
+			return e.tb.Int64(0)
+		}
+		return e.tb.Int64(int64(len(e.chanObj(st, x).Buf)))
 	}
 	panic(e.abort("len of %T", v))
 }
@@ -44,7 +47,10 @@ func (e *Engine) callBuiltin(st *State, f *FuncV, args []Value, site *ssa.Call) 
 		case *PtrV:
 			return one(st, e.lenOf(st, x))
 		case *ChanV:
-			return one(st, t.Int64(0))
+			if x.Obj == 0 {
+				return one(st, t.Int64(0))
+			}
+			return one(st, t.Int64(int64(e.chanObj(st, x).Cap)))
 		}
 	case "append":
 		return e.appendOp(st, args[0].(*SliceV), args[1], site)
@@ -86,6 +92,8 @@ func (e *Engine) callBuiltin(st *State, f *FuncV, args []Value, site *ssa.Call) 
 	case "recover":
 		return one(st, &IfaceV{})
 	case "close":
+		return e.chanClose(st, args[0].(*ChanV))
+	case "vp.noop":
 		return one(st, nil)
 	case "ssa:wrapnilchk":
 		p := args[0].(*PtrV)
